@@ -627,7 +627,7 @@ func (ex *Explorer) runInits() {
 func (ex *Explorer) runDepInits() {
 	for _, p := range ex.prog.AllPackages() {
 		// packages whose initialisers only fill tables (utf8.first/acceptRanges, strings.asciiSpace, ...)
-		if pp := p.Pkg.Path(); pp != "unicode/utf8" && pp != "strings" && pp != "bytes" {
+		if pp := p.Pkg.Path(); pp != "unicode/utf8" && pp != "strings" && pp != "bytes" && pp != "text/template" {
 			continue
 		}
 		init := p.Func("init")
